@@ -112,6 +112,30 @@ def fam_ops(tier, seed):
         ("pos_fail_inner_further", lambda: Choice(Seq(Pos(Seq(Lit("a"), Lit("a"), Lit("b"))), Lit("a")), Lit("b"))),
         ("nested_la_then_fail", lambda: Seq(Neg(Pos(Seq(Lit("a"), Lit("a"), Lit("b")))), Lit("a"), Lit("x"))),
     ]
+    # ordered choice between alternatives whose leading literals are prefixes of each other: the earlier one may
+    # match its literal and still fail (or succeed without covering what the later one would have covered)
+    tails = [("neg_b", lambda: Neg(Lit("b"))), ("pos_b", lambda: Pos(Lit("b"))), ("opt_b", lambda: Opt(Lit("b"))),
+             ("clo_b", lambda: Clo(Lit("b"))), ("eoi", lambda: Eoi()), ("neg_eoi", lambda: Neg(Eoi())), ("e", lambda: Lit("")),
+             ("neg_b_opt_a", lambda: Seq(Neg(Lit("b")), Opt(Lit("a")))), ("pos_any", lambda: Pos(Call("char")))]
+    for tn, tf in tails:
+        hand.append(("prefix_choice_%s" % tn, (lambda tf=tf: Choice(Seq(Lit("a"), tf()), Lit("ab")))))
+        hand.append(("prefix_choice_rev_%s" % tn, (lambda tf=tf: Choice(Seq(Lit("ab"), tf()), Lit("a")))))
+        hand.append(("prefix_choice3_%s" % tn, (lambda tf=tf: Seq(Choice(Seq(Lit("a"), tf()), Seq(Lit("ab"), tf()), Lit("abb")), Opt(Lit("b"))))))
+        hand.append(("prefix_choice_in_clo_%s" % tn, (lambda tf=tf: Seq(Clo(Choice(Seq(Lit("a"), tf()), Lit("ab"))), Opt(Lit("b"))))))
+    # every nesting unary(binary(unary(atom), atom)) / binary(unary(binary(atom, atom)), atom) over three atoms:
+    # all of them in the thorough tier, a seeded sample in the quick tier
+    small = [("a", lambda: Lit("a")), ("ab", lambda: Lit("ab")), ("eoi", lambda: Eoi())]
+    nest3 = []
+    for (o1, f1), (ob, fb), (o2, f2) in itertools.product(UNARY, BINARY, UNARY):
+        for (an, af), (bn, bf) in itertools.product(small, small):
+            for swap in (False, True):
+                nm = "n3_%s(%s(%s_%s,%s)%s)" % (o1, ob, o2, an, bn, "r" if swap else "")
+                nest3.append((nm, (lambda f1=f1, fb=fb, f2=f2, af=af, bf=bf, swap=swap:
+                                   f1(fb(bf(), f2(af())) if swap else fb(f2(af()), bf())))))
+                nm = "n3_%s(%s(%s_%s_%s),%s)%s" % (ob, o1, ob, an, bn, an, "r" if swap else "")
+                nest3.append((nm, (lambda f1=f1, fb=fb, af=af, bf=bf, swap=swap:
+                                   fb(af(), f1(fb(af(), bf()))) if swap else fb(f1(fb(af(), bf())), af()))))
+    hand += nest3 if tier != "quick" else rnd.sample(nest3, 70)
     chosen = list(atoms) + hand + (uu if tier != "quick" else uu[::2] + uu[1::4])
     chosen += d1 if n_d1 >= len(d1) else (d1[:55] + rnd.sample(d1[55:], n_d1 - 55) if n_d1 > 55 else rnd.sample(d1, n_d1))
     rnd.shuffle(deeper)
@@ -525,6 +549,15 @@ def memo_bases():
                       export=True, no_skip_ws=True),
                  Rule("I", Clo(Lit("a"), plus=True), string=True, no_skip_ws=True)],
                 ["a", ",", "x", "y"], ["S", "I"]))
+    # memoized rules whose value is the value of another memoized rule (override wrappers with extra tokens), all
+    # tried at one offset: every rule needs a cache of its own
+    out.append(("override_wrappers",
+                [Rule("S", Choice(Seq(Call("Marked", "m"), Lit("!")), Call("Group", "g"), Seq(Call("Name", "n"), Opt(Lit("*")))),
+                      export=True, no_skip_ws=True),
+                 Rule("Marked", Seq(Call("Name", "@"), Lit("*")), no_skip_ws=True),
+                 Rule("Group", Choice(Seq(Lit("("), Call("Name", "@"), Lit(")")), Seq(Call("Name", "@"), Lit("*"), Lit("*"))), no_skip_ws=True),
+                 Rule("Name", Clo(Lit("a"), plus=True), string=True, no_skip_ws=True)],
+                ["a", "*", "(", "!"], ["Marked", "Group", "Name"]))
     even = {"o": "str_even", "path": "verif_common::oracles::chk_str_even", "name": "verif_common::oracles::chk_str_even"}
     out.append(("check_retry",
                 [Rule("S", Choice(Seq(Call("K", "k"), Lit("!")), Call("K", "k")), export=True, no_skip_ws=True),
@@ -860,6 +893,11 @@ def fam_inc(tier, seed):
         Rule("New", Inc("Pair")),
         Rule("NewN", Inc("PairK"), no_skip_ws=True),
         Rule("O", Seq(Lit("("), Inc("I4"), Lit(")"))),
+        Rule("Tight", Seq(Lit("("), Inc("PairK"), Lit(")")), no_skip_ws=True),
+        Rule("Loose", Seq(Lit("("), Inc("PairK"), Lit(")"))),
+        Rule("LooseN", Seq(Lit("("), Inc("New2"), Lit(")"))),
+        Rule("TightN", Seq(Lit("("), Inc("New2"), Lit(")")), no_skip_ws=True),
+        Rule("New2", Inc("PairK")),
         Rule("A", Lit("a")), Rule("B", Lit("b"), no_skip_ws=True)]
     sites = [
         ("plain", Seq(Inc("I1"), Lit("b"))),
@@ -884,6 +922,10 @@ def fam_inc(tier, seed):
         ("include_boxed_self_nested", Seq(Lit("("), Opt(Inc("I9")), Lit(")"), Clo(Inc("I9")))),
         ("sole_include_noskip_target", Seq(Call("New", "n"), Opt(Call("New", "m")))),
         ("sole_include_skip_target", Seq(Call("NewN", "n"), Opt(Call("NewN", "m")))),
+        # one rule included from two rules with the same fields and different whitespace modes, in both orders
+        ("two_includers_tight_first", Seq(Opt(Call("Tight", "t")), Opt(Call("Loose", "l")), Clo(Call("char")))),
+        ("two_includers_loose_first", Seq(Opt(Call("Loose", "l")), Opt(Call("Tight", "t")), Clo(Call("char")))),
+        ("two_includers_nested", Seq(Opt(Call("LooseN", "l")), Opt(Call("TightN", "t")), Clo(Call("char")))),
     ]
     out = []
     for name, body in sites:
@@ -1284,6 +1326,12 @@ def fam_routes(tier, seed):
                              Rule("Xx", Lit("x")), Rule("Yy", Lit("y"))], ["x", "y", " "])
     mk("keywords", [Rule("S", Seq(Call("type", "fn"), Opt(Call("match", "loop"))), export=True),
                     Rule("type", Lit("t")), Rule("match", Lit("m"))], ["t", "m", " "])
+    # a grammar file with CR LF line endings, one of them inside a literal: every route reads the text verbatim
+    # (not through peginate!: rustc itself normalises CR LF inside the macro's string argument)
+    mk("crlf_text", [Rule("S", Seq(Lit("a\r\nb"), Opt(Call("T", "t"))), export=True, no_skip_ws=True),
+                     Rule("T", Choice(Lit("\r\n"), Lit("\n")), string=True, no_skip_ws=True)],
+       ["a", "b", "\r", "\n"], maxlen=2, flags="-",
+       text="@export\r\n@no_skip_ws\r\nS = 'a\r\nb' [t:T];\r\n# comment\r\n@string\r\n@no_skip_ws\r\nT = \"\r\n\" |\r\n '\\n';\r\n")
     # user functions reached by path from every route (library functions: generic over the rule type)
     P = "verif_common::oracles::"
     always = {"o": "always", "path": P + "chk_always", "name": P + "chk_always"}
@@ -1335,6 +1383,29 @@ def fam_types(tier, seed):
     base = fam_fields(tier, seed)
     for g in (base if tier != "quick" else base[:120]):
         add(copy.deepcopy(g))
+    # 1b. every nesting of three constructs over a field, a second field and a literal (the templates inline
+    # some constructs into their parent and generate modules for others: the combination decides): all of them in
+    # the thorough tier, a seeded sample in the quick tier
+    t_atoms = [("xA", lambda: Call("A", "x")), ("c", lambda: Lit("c")), ("yB", lambda: Call("B", "y"))]
+    nest3 = []
+    for (o1, f1), (ob, fb), (o2, f2) in itertools.product(F_UNARY, BINARY, F_UNARY):
+        for (an, af), (bn, bf) in itertools.product(t_atoms, t_atoms):
+            for swap in (False, True):
+                nest3.append(("n3_%s(%s(%s_%s,%s)%s)" % (o1, ob, o2, an, bn, "r" if swap else ""),
+                              (lambda f1=f1, fb=fb, f2=f2, af=af, bf=bf, swap=swap: f1(fb(bf(), f2(af())) if swap else fb(f2(af()), bf())))))
+    for (o1, f1), (ob, fb), (oc, fc) in itertools.product(F_UNARY, BINARY, BINARY):
+        for (an, af), (bn, bf) in itertools.product(t_atoms, t_atoms):
+            for swap in (False, True):
+                nest3.append(("n3_%s(%s(%s_%s_%s),c)%s" % (oc, o1, ob, an, bn, "r" if swap else ""),
+                              (lambda f1=f1, fb=fb, fc=fc, af=af, bf=bf, swap=swap:
+                               fc(Lit("c"), f1(fb(af(), bf()))) if swap else fc(f1(fb(af(), bf())), Lit("c")))))
+    for name, th in (nest3 if tier != "quick" else rnd.sample(nest3, 120)):
+        body = th()
+        if not has_field(body):
+            continue
+        g = Grammar("x", fields_rules(Seq(Lit("a"), body, Lit("c"))), root="S", meta={"shape": name})
+        g.alpha = ["a"]
+        add(g)
     # 2. rule kinds
     P = "verif_common::oracles::"
     kinds = [
